@@ -49,7 +49,7 @@ Theorem c20_forward_faithful :
 Proof. exact forward_exact_image. Qed.
 Print Assumptions c20_forward_faithful.
 
-(* No parameter is dropped, fixed or merged: calls with the same C++ image are the same entry point with the same
+(* No argument is dropped, fixed or merged: calls with the same C++ image are the same entry point with the same
    scalars and the same [length] bytes in every blob - and conversely. *)
 Theorem c20_forward_injective : forall a b, forward a = forward b <-> same_call a b.
 Proof. exact forward_injective_iff. Qed.
